@@ -24,7 +24,11 @@ Lens == CASE Pattern = "P222"  -> <<2, 2, 2>>
           [] Pattern = "P22"   -> <<2, 2>>
           [] Pattern = "P2222" -> <<2, 2, 2, 2>>
           [] Pattern = "P2132" -> <<2, 1, 3, 2>>
-AllCanon == <<"a", "b", "c", "d">>
+          [] Pattern = "P72"   -> <<7, 2>>
+          [] Pattern = "P27"   -> <<2, 7>>
+          [] Pattern = "P272"  -> <<2, 7, 2>>
+          [] Pattern = "P222222" -> <<2, 2, 2, 2, 2, 2>>
+AllCanon == <<"a", "b", "c", "d", "e", "f">>
 MCCanon == SubSeq(AllCanon, 1, Len(Lens))
 MCItemsOf == [l \in {MCCanon[i] : i \in DOMAIN MCCanon} |->
                 [k \in 1..Lens[CHOOSE i \in DOMAIN MCCanon : MCCanon[i] = l] |-> k]]
@@ -35,7 +39,12 @@ INSTANCE Arrays WITH Canon <- MCCanon, ItemsOf <- MCItemsOf, RootOf <- MCRootOf
 VARIABLES cfg, res, phase
 vars == <<cfg, res, phase>>
 
-DimChoices == OrderedSubsetsUpTo(BaseLetters, MaxDims)
+\* MaxDims = 0: "big" mode for universes with many dimensions - only a few storage orders of the FULL dimension list
+\* (canonical, reversed, rotated), the list without its first letter, two scattered letters and the empty list
+FullOrders == LET c == MCCanon  n == Len(MCCanon) IN
+              {c, [i \in 1..n |-> c[n + 1 - i]], [i \in 1..n |-> c[(i % n) + 1]], Tail(c), <<>>}
+              \cup (IF n >= 4 THEN {<<c[4], c[2]>>} ELSE {})
+DimChoices == IF MaxDims = 0 THEN FullOrders ELSE OrderedSubsetsUpTo(BaseLetters, MaxDims)
 
 \* the symbolic "plain number": array id 9, no labels
 ZeroTuple == [i \in DOMAIN MCCanon |-> 0]
@@ -49,7 +58,8 @@ BinOps    == {"add", "sub", "mul", "div"}
 OrdOps    == {"min", "max"}
 ScalarOps == {"add_s", "sub_s", "mul_s", "div_s", "radd_s", "rsub_s", "rmul_s", "rdiv_s"}
 UnaryOps  == {"neg"}
-OrdUnary  == {"abs", "abs_builtin", "sign", "min_s", "max_s"}
+\* abs_inplace / sign_inplace: x.abs(inplace=True) - the operand itself becomes the result
+OrdUnary  == {"abs", "abs_builtin", "sign", "min_s", "max_s", "abs_inplace", "sign_inplace"}
 
 ArithConfigs ==
          {[op |-> o, xd |-> xd, yd |-> yd, seed |-> 0] : o \in BinOps, xd \in DimChoices, yd \in DimChoices}
@@ -82,8 +92,8 @@ ApplyArith(c) ==
       [] c.op = "min_s"  -> Minimum(c.seed, x, Num(x, PConst(0)))
       [] c.op = "max_s"  -> Maximum(c.seed, x, Num(x, PConst(0)))
       [] c.op = "neg"    -> Neg(x)
-      [] c.op \in {"abs", "abs_builtin"} -> Abs(c.seed, x)
-      [] c.op = "sign"   -> Sign(c.seed, x)
+      [] c.op \in {"abs", "abs_builtin", "abs_inplace"} -> Abs(c.seed, x)
+      [] c.op \in {"sign", "sign_inplace"} -> Sign(c.seed, x)
 
 (***************************************************************************)
 (* reduce family                                                           *)
@@ -98,7 +108,7 @@ ReduceConfigs ==
     \cup {[op |-> "sum_over", xd |-> xd, yd |-> yd, seed |-> 0, form |-> f] :
               xd \in DimChoices, yd \in DimChoices, f \in Forms}
     \cup {[op |-> "cast_to", xd |-> xd, yd |-> yd, seed |-> 0, form |-> "obj"] :
-              xd \in DimChoices, yd \in OrderedSubsets(BaseLetters)}
+              xd \in DimChoices, yd \in (IF MaxDims = 0 THEN FullOrders ELSE OrderedSubsets(BaseLetters))}
     \cup {[op |-> "cumsum", xd |-> xd, yd |-> <<l>>, seed |-> 0, form |-> "letter"] :
               xd \in DimChoices, l \in BaseLetters}
     \cup {[op |-> "shares", xd |-> xd, yd |-> yd, seed |-> s, form |-> "letter"] :
